@@ -69,7 +69,7 @@ def run(ctx):
                       "lookups on an untouched stack. P-VALIDATE: %d random histories x %d ops over 5 keys." % (n, ln),
                       assumptions=["keys are drawn from byte-string families with a prefix pair, NUL / 0xff suffixes, the empty key; values x / yz / 00 7a / empty",
                                    "the store never holds empty values (it is only written through CommitTo, which deletes on empty)",
-                                   "iterators are used in the protocol the code base uses: First() once, then Next() until false",
+                                   "iterators: First() once, then Next() until false; while an iterator is open only reads and writes outside its range are interleaved",
                                    "a real stack is reused for up to 200 edges after Reset() of both layers (checked empty) - a fresh one otherwise"])
 
 
